@@ -54,7 +54,7 @@ HtmlFrags == <<
   F("link", {"KeepDefaultAttrVals", "KeepQuotes"}), F("form", {"KeepDefaultAttrVals", "KeepQuotes"}),
   F("aq", {"KeepQuotes", "KeepWhitespace"}), F("auq", {}), F("area", {"KeepDefaultAttrVals", "KeepQuotes"}),
   F("col", {"KeepDefaultAttrVals", "KeepEndTags"}), F("pre", {}), F("ta", {}), F("ent", {"KeepWhitespace"}),
-  F("br", {}), F("h", {"KeepWhitespace"}),
+  F("br", {}), F("h", {"KeepWhitespace"}), F("styleattr", {"KeepQuotes"}),
   T("tstmt", {}), T("tattr", {"KeepQuotes"}), T("tmix", {"KeepWhitespace"}) >>
 XmlFrags == <<
   F("mix", {"KeepWhitespace"}), F("nest", {"KeepWhitespace"}), F("cm", {"KeepWhitespace"}),
